@@ -33,7 +33,10 @@ class Gen:
         self.next_id = 1
         # sites that run inside the entry cascade through an entry pseudo state (its entry, the row leaving it)
         self.ep_sites = set()
+        self.ep_machines = set()      # machines that own an entry pseudo state
         for m in self.ix.order:
+            if any(st['kind'] == 'entry_pt' for st in m['states'].values()):
+                self.ep_machines.add(m['name'])
             for sn, st in m['states'].items():
                 if st['kind'] == 'entry_pt':
                     self.ep_sites.add('%s.%s' % (m['name'], sn))
@@ -103,8 +106,11 @@ class Gen:
                     tgt = r.choice(effect_targets)
                     if kind == 'X' and tgt == 's':
                         tgt = 'r'
-                    if not entry_point_self and tgt == 's' and (site if kind in 'NX' else site.rsplit('.', 1)[0]) in self.ep_sites:
-                        tgt = 'r'       # order of the entry-point continuation vs. events stored by its own cascade: left open
+                    if not entry_point_self and tgt == 's' and ((site if kind in 'NX' else site.rsplit('.', 1)[0]) in self.ep_sites
+                                                                or site.replace('#', '.').split('.')[0] in self.ep_machines):
+                        # order of the entry-point continuation vs. events stored by its own entry cascade (the pseudo
+                        # state, its row, or any state of another region entered with it): left open by every statement
+                        tgt = 'r'
                     toks.append('E%s:%s:%d:%s:%s:%d:%d' % (kind, site, nth, api, tgt, self.ev(weights), self.fresh_id()))
             y = r.random()
             if enqueue and y < enqueue:
